@@ -14,8 +14,12 @@
 //!   ser=F|V|-       serialisation format
 //!   mod=<name>|- lmod=<name>|-   module names
 //!   lci=0|1|-       lexer builder case_insensitive flag
+//!   api=build|pf    (mode P only) build(): grammar_path/output_path/build; pf: the deprecated but public
+//!                   `CTParserBuilder::process_file(&mut self, y, yout)` (paths are NOT set on the builder; its
+//!                   result is the token map, so `regenerated` is reported as `?`)
 //! result:  `P:<res> L:<res>` with <res> = `ok:<regenerated 0|1|?>` | `err:<hex msg prefix>` |
 //!   `panic` | `-` (not run)
+#![allow(deprecated)]
 use gvh::common::{hex, unhex};
 use gvh::util::*;
 use lrlex::{CTLexerBuilder, DefaultLexerTypes};
@@ -120,7 +124,12 @@ macro_rules! gen_run {
                 if modname != "-" {
                     ctp = ctp.mod_name(modname);
                 }
-                ctp.grammar_path(unhex(&g("y"))).output_path(unhex(&g("yout")))
+                if g("api") == "pf" {
+                    // process_file() is handed the paths
+                    ctp
+                } else {
+                    ctp.grammar_path(unhex(&g("y"))).output_path(unhex(&g("yout")))
+                }
             }
             let _ = (&ypath, &yout);
             // module names must outlive the builders
@@ -143,6 +152,18 @@ macro_rules! gen_run {
                 ctl.lexer_path(&lpath).output_path(&lout)
             };
             match mode.as_str() {
+                "P" if g("api") == "pf" => {
+                    let kv2 = kv.clone();
+                    let (yp, yo) = (ypath.clone(), yout.clone());
+                    let r = catch(std::panic::AssertUnwindSafe(move || {
+                        let mut b = cfg_p(CTParserBuilder::<DefaultLexerTypes<$t>>::new(), &kv2, modname);
+                        match b.process_file(&yp, &yo) {
+                            Ok(_) => "ok:?".to_string(),
+                            Err(e) => format!("err:{}", short(&e.to_string())),
+                        }
+                    }));
+                    format!("P:{} L:-", r.unwrap_or_else(|_| "panic".to_string()))
+                }
                 "P" => {
                     let kv2 = kv.clone();
                     let r = catch(std::panic::AssertUnwindSafe(move || {
